@@ -39,6 +39,22 @@ def run(ctx):
                     variant, bounds = E.interval_parts(p['value'])
                     if oracle_guard(ctx, m, 'C06:' + tag, p['pc'], bounds):
                         check_oracle_args(m, 'C06:' + tag, p['pc'], bounds, p['kind'], 'Zq')
+        # proportions: the critical value enters the bounds WITH ITS SIGN (Phi(z) = L puts z below 0 for one-sided levels below 1/2):
+        # lower(-z) = upper(z) on the one-sided Ok paths, i.e. no square, absolute value or sqrt(z^2 ...) swallows the sign
+        from props import c17
+        from props.c02_m import Z
+        c17.GUARD[:] = [ctx, 'C06']
+        for fname, tag, lo_dom in (('ci_wilson', 'wilson', 2), ('ci_z_normal', 'wald', 10)):
+            ex = c17.extract(m, fname)
+            if set(ex) != {0, 1, 2}:
+                m.stuck('C06:%s:signed-critical-value' % tag, 'Ok paths for kinds %s only' % sorted(ex))
+                continue
+            pcu, lou, hiu = ex[1]
+            pcl, lol, hil = ex[2]
+            neg = lambda x: rename(x, {'Z': T.mk('fneg', Z)})
+            dom = [T.mk('fge', c17.k_f, T.fconst(lo_dom)), T.mk('fge', T.mk('fsub', c17.n_f, c17.k_f), T.fconst(lo_dom))]
+            m.submit('C06:%s:signed-critical-value' % tag, nokind(pcu) + nokind(pcl) + dom, T.and_(T.mk('feq', neg(lou), hil), T.mk('feq', neg(hil), lou)),
+                     key='C06:%s:signed-critical-value' % tag, timeout=120, note='lower(-z) = upper(z): the implied z of a one-sided interval at a level below 1/2 is negative')
         # unpaired: the documented effective degrees of freedom (real-valued, not rounded), t/z switch, formula: C04's obligations are part of this reduction
         c04.unpaired(ctx, m)
         # unpaired: quantile argument
